@@ -23,6 +23,14 @@ func main() {
 		os.Exit(cmdDump(os.Args[2:]))
 	case "list":
 		os.Exit(cmdList(os.Args[2:]))
+	case "tables":
+		v, err := newVerifier("/repo", filepath.Join(verifDir(), "spec"))
+		if err != nil {
+			fmt.Fprintln(os.Stderr, err)
+			os.Exit(2)
+		}
+		fmt.Print(v.genTables())
+		fmt.Println(v.tabs.errs)
 	case "selftest":
 		os.Exit(cmdSelftest(os.Args[2:]))
 	default:
@@ -105,6 +113,12 @@ func cmdDump(args []string) int {
 		tr := &fnTrans{key: "spec"}
 		tr.obls = v.lemmaObligations("")
 		reps = []*funcReport{{Key: "spec", tr: tr}}
+	}
+	if *fname == "dispatch" {
+		tr := &fnTrans{key: "dispatch"}
+		var errs []string
+		tr.obls, errs = v.dispatchObligations()
+		reps = []*funcReport{{Key: "dispatch", tr: tr, Errors: errs}}
 	}
 	if len(reps) == 0 {
 		fmt.Fprintln(os.Stderr, "no contract for", *fname)
